@@ -1294,7 +1294,9 @@ def string_oracle(ctx, ex):
     cands = {None: text}
     if kind == 'mof' and corpus:
         cands.update(_corpus_candidates(exc.file))
-    has_include = bool(re.search(r'pragma\s+include', text, re.I))
+    # comments and line ends may stand between '#pragma' and 'include'
+    low = text.lower()
+    has_include = 'pragma' in low and 'include' in low
     classes = judge(ctx, kind, exc, text, has_include, cands,
                     position=not _in_embedded(exc))
     classes += eol_classes(text)
@@ -2009,7 +2011,9 @@ def mock_oracle(ctx, ex):
         classes += ['outcome:leak-tolerated',
                     'mock:pragma-ns-missing:' + type(exc).__name__]
     else:
-        has_include = bool(re.search(r'pragma\s+include', text, re.I))
+        # comments and line ends may stand between '#pragma' and 'include'
+    low = text.lower()
+    has_include = 'pragma' in low and 'include' in low
         classes += judge(ctx, kind, exc, text, has_include, {None: text},
                          position=not _in_embedded(exc))
     if CHECK_NS not in text:
